@@ -2,7 +2,7 @@
    Statements only (copied from the lemma libraries); every proof is a bare
    `exact`; see the cited files in coq/proofs for the proofs. *)
 From Coq Require Import List NArith ZArith Bool Arith Sorting.Sorted Sorting.Permutation.
-From D2P Require Import Str Err Xml TableTypes Tables Fmt Merge MergeFacts TablesFacts Walk Collector.
+From D2P Require Import Str Err Xml TableTypes Tables Fmt Bullets Merge Collector Walk ShapeFacts TokFacts FrameFacts BulletsFacts MergeFacts TablesFacts SerialFacts GridFacts TriviaFacts SplitFacts.
 Import ListNotations.
 
 (* the element tree exposed for editing carries the same characters and content marks, in the same order, as the original part (under: text elements have no content children, one prefix per namespace) *)
@@ -85,3 +85,147 @@ Theorem C06_properties_not_content :
   /\ mem_str tag_SDT_PROPERTIES content_tags = false.
 Proof. exact properties_are_not_content. Qed.
 Print Assumptions C06_properties_not_content.
+
+(* THE HEADLINE, at the level of the EXTRACTION (merge, then walk): a paragraph in which one run is cut into two runs with the same recognised formatting (other attributes, e.g. revision ids, and unrecognised properties free), with non-content markup (proofing marks, bookmarks) between them, extracts identically - same run strings (one run string for the whole stretch), style, lineage, list position - as the uncut paragraph *)
+Theorem C06_split_run_invisible :
+  forall pt v, rels_ok v ->
+  forall ep A B e e1 e2 pr pr1 pr2 k1 k2 mid f,
+  simple_par (AE ep (A ++ AE e (pr :: k1 ++ k2) :: B)) = true ->
+  ppr_ok ep (A ++ B) = true -> not_ppr ep (AE e []) = true -> forallb (not_ppr ep) mid = true ->
+  run_plain v e = true -> run_plain v e1 = true -> run_plain v e2 = true ->
+  e_uri e1 = e_uri e -> e_local e1 = e_local e -> e_uri e2 = e_uri e -> e_local e2 = e_local e ->
+  is_pr_of e pr = true -> is_pr_of e1 pr1 = true -> is_pr_of e2 pr2 = true ->
+  junkb pr = true -> junkb pr1 = true -> junkb pr2 = true ->
+  get_run_formatting e [pr] (env_x2h v) = Ok f ->
+  get_run_formatting e1 [pr1] (env_x2h v) = Ok f ->
+  get_run_formatting e2 [pr2] (env_x2h v) = Ok f ->
+  forallb junkb mid = true ->
+  wf_ptag pt (AE ep (A ++ AE e1 (pr1 :: k1) :: mid ++ AE e2 (pr2 :: k2) :: B)) = true ->
+  wf_pr (AE ep (A ++ AE e1 (pr1 :: k1) :: mid ++ AE e2 (pr2 :: k2) :: B)) = true ->
+  wf_ptag pt (AE ep (A ++ AE e (pr :: k1 ++ k2) :: B)) = true ->
+  wf_pr (AE ep (A ++ AE e (pr :: k1 ++ k2) :: B)) = true ->
+  fr (extract v (AE ep (A ++ AE e1 (pr1 :: k1) :: mid ++ AE e2 (pr2 :: k2) :: B)))
+  = fr (extract v (AE ep (A ++ AE e (pr :: k1 ++ k2) :: B)))
+  /\ (s <- extract v (AE ep (A ++ AE e1 (pr1 :: k1) :: mid ++ AE e2 (pr2 :: k2) :: B)) ;;
+      tree_par_toks (c_tree s))
+     = (s <- extract v (AE ep (A ++ AE e (pr :: k1 ++ k2) :: B)) ;; tree_par_toks (c_tree s)).
+Proof. exact split_run_invisible_simple_par. Qed.
+Print Assumptions C06_split_run_invisible.
+
+(* with html off every run property is unrecognised: any two runs may be the pieces *)
+Theorem C06_split_run_invisible_html_off :
+  forall pt v, rels_ok v -> env_x2h v = [] ->
+  forall ep A B e e1 e2 pr pr1 pr2 k1 k2 mid d d1 d2,
+  kids_tag (e_ptag ep) = true ->
+  ppr_ok ep (A ++ B) = true -> not_ppr ep (AE e []) = true -> forallb (not_ppr ep) mid = true ->
+  run_plain v e = true -> run_plain v e1 = true -> run_plain v e2 = true ->
+  e_uri e1 = e_uri e -> e_local e1 = e_local e -> e_uri e2 = e_uri e -> e_local e2 = e_local e ->
+  is_pr_of e pr = true -> is_pr_of e1 pr1 = true -> is_pr_of e2 pr2 = true ->
+  junkb pr = true -> junkb pr1 = true -> junkb pr2 = true ->
+  gather_Pr e [pr] = Ok d -> gather_Pr e1 [pr1] = Ok d1 -> gather_Pr e2 [pr2] = Ok d2 ->
+  forallb junkb mid = true ->
+  wf_ptag pt (AE ep (A ++ AE e1 (pr1 :: k1) :: mid ++ AE e2 (pr2 :: k2) :: B)) = true ->
+  wf_pr (AE ep (A ++ AE e1 (pr1 :: k1) :: mid ++ AE e2 (pr2 :: k2) :: B)) = true ->
+  wf_ptag pt (AE ep (A ++ AE e (pr :: k1 ++ k2) :: B)) = true ->
+  wf_pr (AE ep (A ++ AE e (pr :: k1 ++ k2) :: B)) = true ->
+  fr (extract v (AE ep (A ++ AE e1 (pr1 :: k1) :: mid ++ AE e2 (pr2 :: k2) :: B)))
+  = fr (extract v (AE ep (A ++ AE e (pr :: k1 ++ k2) :: B))).
+Proof. exact split_run_invisible_html_off. Qed.
+Print Assumptions C06_split_run_invisible_html_off.
+
+(* GENERAL FORM: any number of run or hyperlink splits, text-node fusions, inserted inert siblings and run-element replacements with equal recognised formatting, anywhere below runs, paragraphs, cells (relation msim): the extraction is the same *)
+Theorem C06_split_anywhere_invisible :
+  forall pt v t t',
+  rels_ok v -> msim v t t' ->
+  wf_ptag pt t = true -> wf_pr t = true -> wf_ptag pt t' = true -> wf_pr t' = true ->
+  fr (extract v t) = fr (extract v t').
+Proof. exact split_anywhere_invisible. Qed.
+Print Assumptions C06_split_anywhere_invisible.
+
+(* a hyperlink cut into consecutive hyperlinks with the same target *)
+Theorem C06_split_link_invisible :
+  forall pt v, rels_ok v ->
+  forall ep A B h h2 c1 c2 mid K,
+  kids_tag (e_ptag ep) = true -> ppr_ok ep (A ++ B) = true ->
+  not_ppr ep (AE h []) = true -> forallb (not_ppr ep) mid = true ->
+  e_ptag h = tag_HYPERLINK -> e_ptag h2 = tag_HYPERLINK ->
+  elem_key v h [] = Ok K -> elem_key v h2 [] = Ok K ->
+  forallb junkb mid = true ->
+  wf_ptag pt (AE ep (A ++ AE h c1 :: mid ++ AE h2 c2 :: B)) = true ->
+  wf_pr (AE ep (A ++ AE h c1 :: mid ++ AE h2 c2 :: B)) = true ->
+  wf_ptag pt (AE ep (A ++ AE h (c1 ++ c2) :: B)) = true ->
+  wf_pr (AE ep (A ++ AE h (c1 ++ c2) :: B)) = true ->
+  fr (extract v (AE ep (A ++ AE h c1 :: mid ++ AE h2 c2 :: B)))
+  = fr (extract v (AE ep (A ++ AE h (c1 ++ c2) :: B))).
+Proof. exact split_link_invisible. Qed.
+Print Assumptions C06_split_link_invisible.
+
+(* adjacent text nodes and the fused node extract alike *)
+Theorem C06_text_fusion_invisible :
+  forall pt v, rels_ok v ->
+  forall ep A B e a b t1 d1 t2 d2 mid K,
+  kids_tag (e_ptag ep) = true -> ppr_ok ep (A ++ B) = true -> not_ppr ep (AE e []) = true ->
+  run_plain v e = true ->
+  (pr_child e a <> None \/
+   (is_pr_of e (AE t1 []) = false /\ forallb (fun k => negb (is_pr_of e k)) mid = true)) ->
+  is_text_like t1 = true -> has_content (AE t2 d2) = true ->
+  elem_key v t1 d1 = Ok K -> elem_key v t2 d2 = Ok K ->
+  forallb junkb mid = true ->
+  wf_ptag pt (AE ep (A ++ AE e (a ++ AE t1 d1 :: mid ++ AE t2 d2 :: b) :: B)) = true ->
+  wf_pr (AE ep (A ++ AE e (a ++ AE t1 d1 :: mid ++ AE t2 d2 :: b) :: B)) = true ->
+  wf_ptag pt (AE ep (A ++ AE e (a ++ AE (fused t1 t2) (d1 ++ d2) :: b) :: B)) = true ->
+  wf_pr (AE ep (A ++ AE e (a ++ AE (fused t1 t2) (d1 ++ d2) :: b) :: B)) = true ->
+  fr (extract v (AE ep (A ++ AE e (a ++ AE t1 d1 :: mid ++ AE t2 d2 :: b) :: B)))
+  = fr (extract v (AE ep (A ++ AE e (a ++ AE (fused t1 t2) (d1 ++ d2) :: b) :: B))).
+Proof. exact text_fuse_invisible. Qed.
+Print Assumptions C06_text_fusion_invisible.
+
+(* what merging does to two equal-key runs with non-content siblings between them, inside any sibling list: one run with the children of both; the siblings in between follow it *)
+Theorem C06_merge_two_runs :
+  forall v pre e1 k1 mid e2 k2 post key,
+  is_mergeable e1 = true -> is_text_like e1 = false ->
+  has_content (AE e2 k2) = true ->
+  elem_key v e1 k1 = Ok key -> elem_key v e2 k2 = Ok key ->
+  elem_key v e1 (k1 ++ k2) = Ok key ->
+  Forall (fun k => has_content k = false) mid ->
+  no_text_clash pre e1 ->
+  merge_sibs v (pre ++ AE e1 k1 :: mid ++ AE e2 k2 :: post)
+  = merge_sibs v (pre ++ AE e1 (k1 ++ k2) :: mid ++ post).
+Proof. exact merge_two_runs. Qed.
+Print Assumptions C06_merge_two_runs.
+
+(* the second run's w:rPr, carried into the merged run, and any other inert child, do not change what walking the run does *)
+Theorem C06_extra_properties_invisible :
+  forall v e a x b path path' s s',
+  e_ptag e = tag_RUN -> inert x = true ->
+  (pr_child e a <> None \/ is_elem_named (e_uri e) (e_local e ++ s_Pr) x = false) ->
+  forget_elem_st s = forget_elem_st s' ->
+  fr (walk v path (AE e (a ++ x :: b)) s) = fr (walk v path' (AE e (a ++ b)) s').
+Proof. exact extra_rPr_invisible. Qed.
+Print Assumptions C06_extra_properties_invisible.
+
+(* machine-checked example: {{name}} broken as {{ , na , me}} over three runs with proofErr between and differing rsid: ONE run string, html off *)
+Theorem C06_placeholder_example_plain :
+  fr (extract sx_plain (ex_split3 false)) = fr (extract sx_plain (ex_unsplit false))
+  /\ run_strings sx_plain (ex_split3 false) = Ok [[s_name]]
+  /\ run_strings sx_plain (ex_unsplit false) = Ok [[s_name]].
+Proof. exact split3_computed_plain. Qed.
+Print Assumptions C06_placeholder_example_plain.
+
+(* and html on with a bold run: <b>{{name}}</b> *)
+Theorem C06_placeholder_example_html :
+  fr (extract sx_html (ex_split3 true)) = fr (extract sx_html (ex_unsplit true))
+  /\ run_strings sx_html (ex_split3 true) = Ok [[[60; 98; 62] ++ s_name ++ [60; 47; 98; 62]]]
+  /\ run_strings sx_html (ex_unsplit true) = Ok [[[60; 98; 62] ++ s_name ++ [60; 47; 98; 62]]].
+Proof. exact split3_computed_html. Qed.
+Print Assumptions C06_placeholder_example_html.
+
+(* the clause 'the run carries no resolving r:id' of the general form is needed (runs keyed by target) *)
+Theorem C06_rid_run_refuted :
+  exists v ep e ks ks' rest,
+    e_ptag e = tag_RUN /\ tgt_of v e <> None /\
+    get_run_formatting e ks (env_x2h v) = get_run_formatting e ks' (env_x2h v) /\
+    lsim junk eq ks ks' /\
+    fr (extract v (AE ep (AE e ks :: rest))) <> fr (extract v (AE ep (AE e ks' :: rest))).
+Proof. exact rid_run_counterexample. Qed.
+Print Assumptions C06_rid_run_refuted.
